@@ -128,7 +128,7 @@ func init() {
 		atoms := c12Atoms("k", vals, bounds, []*int{nil})
 		atomsMV := c12Atoms("k", []string{"0", "1", "a"}, []string{"0", "2"}, mvs)
 		r.Rule = "atoms = {In,NotIn} x value sets of size 1-2 over {0,1,2,3,a,-1}, Exists, DoesNotExist, {Gt,Lt,Gte,Lte} x {-1,0,1,2,3,MaxInt64,MinInt64}; " +
-			"all pairs and triples of atoms through Requirement.Intersection/HasIntersection/Has and Requirements.Add (incl. alias keys); all (A,B) with <=1 atom on a " +
+			"all pairs and triples of atoms through Requirement.Intersection/HasIntersection/Has and Requirements.Add (incl. alias keys); every label SET {alias: v1, stable: v2} over all alias pairs through NewLabelRequirements; all (A,B) with <=1 atom on a " +
 			"well-known and on a custom key through Compatible/Intersects; judged on a witness universe W (every mentioned value, integers within 2 of every bound, " +
 			"fresh string, far integers). non-trivial = distinct (operands, clause) where the admitted sets of the operands partially overlap or the clause compares a bounded set"
 		r.Assumptions = []string{"In with an empty value list is excluded (rejected by Kubernetes and Karpenter validation)",
@@ -221,6 +221,41 @@ func init() {
 			if a.r.MinValues != nil || b.r.MinValues != nil {
 				l.NontrivialH(ev.H("mv/" + atomsStr(a, b)))
 			}
+		})
+		// ---- label SETS with an aliased key: NewLabelRequirements({alias: v1, stable: v2}) must admit exactly {v1} ∩ {v2} on the
+		// stable key (both labels name the same concept), for every alias pair and every pair of values
+		aliases := make([]string, 0, len(v1.NormalizedLabels))
+		for a := range v1.NormalizedLabels {
+			aliases = append(aliases, a)
+		}
+		sort.Strings(aliases)
+		avals := []string{"a", "b"}
+		enum.Run(r, enum.Size(len(aliases), len(avals), len(avals), 3), func(idx int64, l *ev.Local) {
+			d := enum.Odo(idx, len(aliases), len(avals), len(avals), 3)
+			alias, stable := aliases[d[0]], v1.NormalizedLabels[aliases[d[0]]]
+			va, vs := avals[d[1]], avals[d[2]]
+			l.Eval()
+			l.Nontrivial(fmt.Sprintf("labelset/%d", idx))
+			// repeated: which entry of a Go map is visited last is random, so an overwrite instead of an intersection shows
+			// in some repetitions only
+			for rep := 0; rep < 8; rep++ {
+				reqs := scheduling.NewLabelRequirements(map[string]string{alias: va, stable: vs})
+				for _, v := range avals {
+					want := v == va && v == vs
+					if got := reqs.Get(stable).Has(v); got != want {
+						l.Violation("label set with an aliased key is not the intersection", fmt.Sprintf("NewLabelRequirements({%s: %s, %s: %s}).Get(%s).Has(%q) = %v, expected %v (both keys name the same label)", alias, va, stable, vs, stable, v, got, want), nil)
+						return
+					}
+				}
+				// compatibility of a node labelled stable=vs with this selector-like set
+				node := scheduling.NewLabelRequirements(map[string]string{stable: vs})
+				wantCompat := va == vs
+				if got := node.IsCompatible(reqs, scheduling.AllowUndefinedWellKnownLabels); got != wantCompat {
+					l.Violation("label set with an aliased key: compatibility", fmt.Sprintf("node {%s: %s} compatible with {%s: %s, %s: %s} = %v, expected %v", stable, vs, alias, va, stable, vs, got, wantCompat), nil)
+					return
+				}
+			}
+			_ = d[3]
 		})
 		// ---- clause 4: Compatible / Intersects, one atom (or none) per key per side
 		cvals, cbounds := []string{"0", "1", "2", "a"}, []string{"0", "1", "2"}
